@@ -8,4 +8,5 @@ OVLDIR=/verif/.bin/overlay-base
 OVLJSON="$(go1.26.8 run ./cmd/mkoverlay "$OVLDIR")"
 go1.26.8 build -tags verif -overlay "$OVLJSON" -o /verif/.bin/verifx ./cmd/verifx
 go1.26.8 test -vet=off -tags verif -overlay "$OVLJSON" -c -o /verif/.bin/c11.test ./checks/c11/
+go1.26.8 test -vet=off -tags verif -overlay "$OVLJSON" -c -o /verif/.bin/c15w.test ./checks/c15w/
 echo "setup ok"
